@@ -5,9 +5,12 @@
    Definitions only; proofs live in Proofs/SerdesLemmas.v.
 
    The model mirrors the REPAIRED code (proposed_fixes/C14-*.diff): strload first
-   normalises bytearray / memoryview carriers to bytes and only then calls the
-   memoised parser.  The pinned code (no normalisation) is the instance
-   [fixd := false] of the same definitions; it is used for the refutation theorem. *)
+   normalises bytearray / memoryview carriers to bytes, the memoised parser DECODES the
+   carrier and hands the text to the JSON decoder and then to literal_eval
+   (C14-strload-decode-first.diff).  The pinned code (no normalisation, JSON decoder on
+   the raw carrier) is the instance [fixd := false]; [strload_rawjson] is the code between
+   the two repairs (carriers normalised, JSON decoder still on the bytes); both are used
+   for refutation theorems only. *)
 From Coq Require Import List ZArith NArith Bool.
 Import ListNotations.
 
@@ -52,7 +55,8 @@ Record Runtime := {
   utf8_encode    : str -> bytes;
   utf8_decode    : bytes -> res str;
   json_loads_str : str -> res pv;
-  json_loads_bin : bytes -> res pv;
+  json_loads_bin : bytes -> res pv;          (* the decoder on a byte string: only the code BEFORE
+                                                C14-strload-decode-first.diff calls it (strload_body_raw) *)
   literal_eval   : str -> res pv;
   json_dumps     : pv -> str;
   py_repr        : pv -> str
@@ -83,8 +87,6 @@ Definition encodable (s : str) : bool := forallb scalar_cp s.
 Record RuntimeLaws (rt : Runtime) : Prop := {
   (* bytes.decode('utf-8') inverts str.encode() *)
   utf8_rt : forall s, encodable s = true -> utf8_decode rt (utf8_encode rt s) = Ok s;
-  (* the JSON decoder reads bytes as their UTF-8 decoding *)
-  json_bin_str : forall b s, utf8_decode rt b = Ok s -> json_loads_bin rt b = json_loads_str rt s;
   (* on text the JSON decoder raises nothing but its ValueError subclass *)
   json_errors_value : forall s e, json_loads_str rt s = Raise e -> is_value_error e = true;
   (* ast.literal_eval: "It can raise ValueError, TypeError, SyntaxError, MemoryError and
@@ -134,25 +136,41 @@ Definition normalise (k : ckind) : ckind :=
 Definition json_loads (k : ckind) (p : list N) : res pv :=
   match k with CStr => json_loads_str rt p | _ => json_loads_bin rt p end.
 
-(* the memoised body:
+(* what follows the JSON attempt:
+     with suppress(ValueError, TypeError, SyntaxError[, MemoryError, RecursionError]): return ast.literal_eval(decoded)
+     return decoded *)
+Definition literal_step (fixd : bool) (s : str) : res pv :=
+  match literal_eval rt s with
+  | Ok r => Ok r
+  | Raise e' =>
+      if (if fixd then literal_suppressed e' else literal_suppressed_pinned e')
+      then Ok (PStr s) else Raise e'
+  end.
+
+(* the memoised body BEFORE C14-strload-decode-first.diff: the JSON decoder is handed the carrier itself
      with suppress(ValueError): return json.loads(val)
      decoded = decode(val)
-     with suppress(ValueError, TypeError, SyntaxError): return ast.literal_eval(decoded)
-     return decoded *)
-Definition strload_body (fixd : bool) (k : ckind) (p : list N) : res pv :=
+     ... literal_eval(decoded) ... *)
+Definition strload_body_raw (fixd : bool) (k : ckind) (p : list N) : res pv :=
   match json_loads k p with
   | Ok r => Ok r
-  | Raise e =>
-      if is_value_error e then
-        bind (decode_text k p) (fun s =>
-          match literal_eval rt s with
-          | Ok r => Ok r
-          | Raise e' =>
-              if (if fixd then literal_suppressed e' else literal_suppressed_pinned e')
-              then Ok (PStr s) else Raise e'
-          end)
-      else Raise e
+  | Raise e => if is_value_error e then bind (decode_text k p) (literal_step fixd) else Raise e
   end.
+
+(* the memoised body, repaired:
+     decoded = decode(val)
+     with suppress(ValueError): return compat.json.loads(decoded)
+     with suppress(ValueError, TypeError, SyntaxError, MemoryError, RecursionError): return ast.literal_eval(decoded)
+     return decoded *)
+Definition strload_body_dec (k : ckind) (p : list N) : res pv :=
+  bind (decode_text k p) (fun s =>
+    match json_loads_str rt s with
+    | Ok r => Ok r
+    | Raise e => if is_value_error e then literal_step true s else Raise e
+    end).
+
+Definition strload_body (fixd : bool) (k : ckind) (p : list N) : res pv :=
+  if fixd then strload_body_dec k p else strload_body_raw false k p.
 
 (* fixd = true: the repaired strload; fixd = false: the pinned one (key = raw input).
    Returning a fresh copy of the memoised value is invisible at this level (values). *)
@@ -166,6 +184,12 @@ Definition load_gen (fixd : bool) (v : pv) : res pv :=
 
 Definition strload := strload_gen true.
 Definition load := load_gen true.
+
+(* the code between C14-strload-carriers.diff and C14-strload-decode-first.diff *)
+Definition strload_rawjson (k : ckind) (p : list N) : res pv :=
+  bind (hash_check (normalise k)) (fun _ => strload_body_raw true (normalise k) p).
+Definition load_rawjson (v : pv) : res pv :=
+  match v with PText k p => strload_rawjson k p | _ => Ok v end.
 
 (* the five carriers of a str s *)
 Definition carrier (k : ckind) (s : str) : pv :=
